@@ -72,6 +72,27 @@ impl C14 {
             return None;
         }
         expect_iso(ctx, "Optic::map_arrow", "model-lens-substitution", class, &got, &want, &input);
+        // map_operations on the whole batch of f's operations: the tensor of the model lenses, in order
+        if !f.e.is_empty() {
+            let labels: Vec<u64> = f.e.iter().map(|e| e.l).collect();
+            let st: Vec<Vec<u32>> = f.e.iter().map(|e| e.s.iter().map(|&v| f.w[v]).collect()).collect();
+            let tt: Vec<Vec<u32>> = f.e.iter().map(|e| e.t.iter().map(|&v| f.w[v]).collect()).collect();
+            let ops = open_hypergraphs::operations::Operations::<open_hypergraphs::array::vec::VecKind, u32, u64>::new(sf(labels.clone()), segs_from_lists(&st), segs_from_lists(&tt));
+            if let Some(ops) = ops {
+                if f.e.len() >= 2 {
+                    ctx.class("map_operations_on_a_batch_of_several");
+                }
+                let mut wantb: PD = POh::empty();
+                for k in 0..f.e.len() {
+                    wantb = wantb.tensor(&spec.lens(&labels[k], &st[k], &tt[k]));
+                }
+                if let Some(bimg) = lib(ctx, "Optic::map_operations", class, &input, || optic.map_operations(ops)) {
+                    expect_diagram(ctx, "Optic::map_operations", "tensor-of-the-model-lenses", class, &bimg, &wantb, &input);
+                }
+            } else {
+                ctx.inconclusive("Operations::new rejected a well-formed batch");
+            }
+        }
         // adapt: F A ● R B -> F B ● R A
         let ad = lib(ctx, "Optic::adapt", class, &input, || optic.adapt(&img, &sf(a.clone()), &sf(b.clone())))?;
         let gad = walk(ctx, "Optic::adapt", class, &ad, &input)?;
@@ -89,26 +110,44 @@ impl C14 {
             ctx.class("monogamous_argument");
             ctx.check(monogamous(&gad), &format!("Optic::adapt/monogamous-if-argument-is/value/{}", class), || json!({"input": input(), "observed": show(&gad)}));
         }
-        // lax entry points
-        let lx = to_lax(&f.to_lax());
+        // lax entry points: on the quotient-free presentation and on one that still carries pending
+        // unifications (the optic of the quotiented argument either way)
         let lo = LaxOptic(spec.clone());
-        let lx2 = lx.clone();
-        if let Some(li) = lib(ctx, "lax::Optic::map_arrow", class, &input, || lo.map_arrow(lx2)) {
-            if let Some(pl) = walk_lax(ctx, "lax::Optic::map_arrow", class, &li, &input) {
-                if let Ok((g2, _)) = pl.strict() {
-                    let ty = g2.src_type() == spec.interleaved(&a) && g2.tgt_type() == spec.interleaved(&b);
-                    if ctx.check(ty, &format!("lax::Optic::map_arrow/type/value/{}", class), || json!({"input": input(), "observed": show(&g2)})) {
-                        expect_iso(ctx, "lax::Optic::map_arrow", "model-lens-substitution", class, &g2, &want, &input);
+        let exploded = explode(f);
+        if !exploded.q.is_empty() {
+            ctx.class("lax_argument_with_pending_unifications");
+        }
+        for (cls2, px) in [(class, f.to_lax()), ("pending_argument", exploded)] {
+            let lx = to_lax(&px);
+            let inp = || json!({"optic": format!("{:?}", spec), "f": show_lax(&px)});
+            let lx2 = lx.clone();
+            if let Some(li) = lib(ctx, "lax::Optic::map_arrow", cls2, &inp, || lo.map_arrow(lx2)) {
+                if let Some(pl) = walk_lax(ctx, "lax::Optic::map_arrow", cls2, &li, &inp) {
+                    match pl.strict() {
+                        Ok((g2, _)) => {
+                            let ty = g2.src_type() == spec.interleaved(&a) && g2.tgt_type() == spec.interleaved(&b);
+                            if ctx.check(ty, &format!("lax::Optic::map_arrow/type/value/{}", cls2), || json!({"input": inp(), "observed": show(&g2)})) {
+                                expect_iso(ctx, "lax::Optic::map_arrow", "model-lens-substitution", cls2, &g2, &want, &inp);
+                            }
+                        }
+                        Err(_) => {
+                            ctx.check(false, &format!("lax::Optic::map_arrow/quotientable/value/{}", cls2), || json!({"input": inp(), "observed": show_lax(&pl)}));
+                        }
                     }
                 }
             }
-        }
-        if let Some(la) = lib(ctx, "lax::Optic::map_adapted", class, &input, || lo.map_adapted(lx)) {
-            if let Some(pl) = walk_lax(ctx, "lax::Optic::map_adapted", class, &la, &input) {
-                if let Ok((g2, _)) = pl.strict() {
-                    let ty = g2.src_type() == ws && g2.tgt_type() == wt;
-                    if ctx.check(ty, &format!("lax::Optic::map_adapted/type/value/{}", class), || json!({"input": input(), "observed": show(&g2)})) {
-                        expect_iso(ctx, "lax::Optic::map_adapted", "re-bent-interfaces", class, &g2, &spec.adapt(&want, &a, &b), &input);
+            if let Some(la) = lib(ctx, "lax::Optic::map_adapted", cls2, &inp, || lo.map_adapted(lx)) {
+                if let Some(pl) = walk_lax(ctx, "lax::Optic::map_adapted", cls2, &la, &inp) {
+                    match pl.strict() {
+                        Ok((g2, _)) => {
+                            let ty = g2.src_type() == ws && g2.tgt_type() == wt;
+                            if ctx.check(ty, &format!("lax::Optic::map_adapted/type/value/{}", cls2), || json!({"input": inp(), "observed": show(&g2)})) {
+                                expect_iso(ctx, "lax::Optic::map_adapted", "re-bent-interfaces", cls2, &g2, &spec.adapt(&want, &a, &b), &inp);
+                            }
+                        }
+                        Err(_) => {
+                            ctx.check(false, &format!("lax::Optic::map_adapted/quotientable/value/{}", cls2), || json!({"input": inp(), "observed": show_lax(&pl)}));
+                        }
                     }
                 }
             }
@@ -241,6 +280,9 @@ impl Monitor for C14 {
             ("api:lax::Optic::map_adapted", 200),
             ("api:lax::Optic::map_arrow", 200),
             ("api:Optic::adapt", 200),
+            ("class:lax_argument_with_pending_unifications", 100),
+            ("class:map_operations_on_a_batch_of_several", 100),
+            ("api:Optic::map_operations", 200),
         ]
     }
     fn run_case(&self, idx: u64, r: &mut Rng, ctx: &mut Ctx) {
